@@ -68,9 +68,19 @@ def generate(seed, mode="c07", opts=None):
             if ch.chance(1, 10):
                 script.append(["junk", ch.rint(1, 50, "junk") * 13])
     # refused edits: additions to a module that some earlier call elaborated completely
+    covered = set()
+    for op in script:
+        if op[0] in interp.EXPORT_OPS:
+            covered |= hierarchy(g.d, op[1])
     for _ in range(ch.rint(0, 2, "nrefused")):
-        m = ch.pick(ended, "refused")
-        script.append(["expect_raise", ["sig", m, f"late{len(script)}", 1, "i", "n"]])
+        m = ch.pick(sorted(covered) or ended, "refused")
+        mm = g.d.mods[m]
+        taken = list(mm.sigs) + list(mm.insts) + list(mm.buns)
+        if taken and ch.chance(1, 2):
+            nm = ch.pick(taken, "refusedname")  # the refusal must not disturb the attribute that holds the name
+        else:
+            nm = f"late{len(script)}"
+        script.append(["expect_raise", ["sig", m, nm, 1, "i", "n"]])
     for _ in range(ch.rint(1, 3, "nfinal")):
         script.append(gen_call(ch, ended, netlistable))
     scn = {
@@ -459,6 +469,9 @@ def run(scn):
     # which an earlier failed call left partially elaborated.  Neither C07 (fully elaborated
     # modules refuse additions) nor C08 defines what such an edit means.
     for k, op in enumerate(ops):
+        if op[0] == "expect_raise" and outcomes[k] is not None and not outcomes[k]["raised"] and not str(op[1][2]).startswith("late"):
+            res["discard"] = "an edit re-using a name was accepted by a module no call had elaborated (outside the model)"
+            return res
         if op[0] == "expect_raise" and outcomes[k] is not None and not outcomes[k]["raised"]:
             d0 = design_at(eff, k)
             for j in range(k):
